@@ -162,6 +162,12 @@ func (x *Exec) appendCall(st *State, cc *ssa.CallCommon, args []Val, pos token.P
 			single = srcAt("0")
 		}
 	}
+	if single != "" {
+		if vi := x.valueInvFor(et); vi != nil {
+			// the element was stored into the one-element varargs array just before (checked there)
+			_ = vi
+		}
+	}
 	oldArr := c.def("old", c.regions[r][len("(Array Int "):len(c.regions[r])-1], sx("select", h, sRef(s.S)))
 	off, ln, cp := sOff(s.S), sLen(s.S), sCap(s.S)
 	newLen := c.def("nl", "Int", sx("+", ln, n))
@@ -436,14 +442,39 @@ func bindResults(vars map[string]Val, sig *types.Signature, res Val) {
 
 func (x *Exec) dynamicCall(st *State, cc *ssa.CallCommon, fv Val, args []Val, pos token.Pos) Val {
 	resT := cc.Signature().Results()
+	x.nilCheck(st, fv.S, pos)
 	// type contract of a named function type (e.g. postscript.builtin)
-	if nt, ok := cc.Value.Type().(*types.Named); ok {
-		key := nt.Obj().Pkg().Name() + "." + nt.Obj().Name()
-		if fc := x.p.contracts["type:"+key]; fc != nil {
-			_ = fc
+	if nt, ok := cc.Value.Type().(*types.Named); ok && nt.Obj().Pkg() != nil {
+		key := nt.Obj().Pkg().Name() + ".type:" + nt.Obj().Name()
+		if fc := x.p.contracts[key]; fc != nil {
+			fc.Used = true
+			vars := map[string]Val{}
+			for i, n := range fc.ParamNames {
+				if i < len(args) {
+					vars[n] = args[i]
+				}
+			}
+			scopeFn := x.fn
+			env := &Env{x: x, c: x.c, st: st, old: st, vars: vars, fn: scopeFn, pos: token.NoPos, ghostOnly: true}
+			for i, rq := range fc.Requires {
+				x.oblige(st, "call-requires", pos, x.evalClause(env, rq), fmt.Sprintf("%s.requires%d", key, i+1), nil)
+			}
+			pre := st.clone()
+			x.c.havocAll(st)
+			res := x.results(st, resT, "dyn")
+			v2 := map[string]Val{}
+			for k, v := range vars {
+				v2[k] = v
+			}
+			bindResults(v2, cc.Signature(), res)
+			env2 := &Env{x: x, c: x.c, st: st, old: pre, vars: v2, oldVars: vars, fn: scopeFn, pos: token.NoPos, ghostOnly: true}
+			for _, en := range fc.Ensures {
+				x.assumeG(st, x.evalClause(env2, en))
+			}
+			x.c.note("dynamic call through " + key + ": type contract assumed; every function stored as such a value is checked to refine it")
+			return res
 		}
 	}
-	x.nilCheck(st, fv.S, pos)
 	x.c.havocAll(st)
 	x.c.note("dynamic call havocs the whole heap")
 	return x.results(st, resT, "dyn")
